@@ -189,9 +189,8 @@ var docDirectivePool = []string{
 	"//nolint:errcheck,gocyclo\n//go:noinline",
 }
 
-func (c *Conc) docText(tok, pair string) string {
-	_, field := splitPair(pair)
-	m := methodName(pair)
+func (c *Conc) docText(tok, pair, m string) string {
+	field := c.fieldName(pair)
 	sub := func(s string) string {
 		return strings.ReplaceAll(strings.ReplaceAll(s, "%M", m), "%F", field)
 	}
@@ -267,8 +266,88 @@ func pLcFirst(s string) string {
 	return strings.ToLower(s[:1]) + s[1:]
 }
 
-func methodName(pair string) string { _, f := splitPair(pair); return pUcFirst(f) }
-func recvName(pair string) string   { t, _ := splitPair(pair); return pLcFirst(t) + "Resolver" }
+// ---- concrete names of types and fields ------------------------------------------
+//
+// The abstract pairs ("T_g") are concretised with names from pools that stress the
+// generator's naming functions: initialisms (the receiver of URLInfo is
+// uRLInfoResolver in the template but urlInfo... through ToGoPrivate), underscores
+// (leading, embedded, trailing), digits, all-caps, single letters, names that differ
+// only in case from Go keywords. The projection finds a method under whatever
+// receiver / method name the generator emitted (case- and underscore-insensitive).
+
+var typeNamePool = []string{"URLInfo", "HTTPResponse", "APIKey", "My_Type", "Trailing_", "T2x", "X", "API", "Func", "Type", "IPv4Addr", "T", "userIDInfo"}
+var fieldNamePool = []string{"userID", "ipAddress", "my_field", "x", "f2go", "URL", "type", "range", "httpURL", "trailing_", "Mixed_Case_ID", "a1", "_lead", "g", "f1", "SHOUT"}
+
+type pairName struct{ Type, Field string }
+
+func normName(s string) string { return strings.ToLower(strings.ReplaceAll(s, "_", "")) }
+
+// SetNames draws the concrete names for this project (seed, salt).
+func (c *Conc) SetNames(salt string) {
+	c.names = map[string]pairName{}
+	types := map[string]string{"Query": "Query"}
+	usedT := map[string]bool{"query": true, "mutation": true, "subscription": true}
+	usedF := map[string]map[string]bool{}
+	for _, p := range c.Pairs {
+		at, af := splitPair(p)
+		if _, ok := types[at]; !ok {
+			for k := 0; ; k++ {
+				cand := typeNamePool[pick(c.Seed, len(typeNamePool), "type", at, salt, fmt.Sprint(k))]
+				if !usedT[normName(cand)] {
+					usedT[normName(cand)] = true
+					types[at] = cand
+					break
+				}
+			}
+		}
+		if usedF[at] == nil {
+			usedF[at] = map[string]bool{"id": true, "keep": true}
+		}
+		for k := 0; ; k++ {
+			cand := fieldNamePool[pick(c.Seed, len(fieldNamePool), "field", p, salt, fmt.Sprint(k))]
+			if !usedF[at][normName(cand)] {
+				usedF[at][normName(cand)] = true
+				c.names[p] = pairName{types[at], cand}
+				break
+			}
+		}
+		_ = af
+	}
+	c.typeNames = types
+}
+
+func (c *Conc) typeName(pair string) string {
+	if n, ok := c.names[pair]; ok {
+		return n.Type
+	}
+	t, _ := splitPair(pair)
+	return t
+}
+
+func (c *Conc) fieldName(pair string) string {
+	if n, ok := c.names[pair]; ok {
+		return n.Field
+	}
+	_, f := splitPair(pair)
+	return f
+}
+
+// concreteType maps an abstract type name to its concrete name.
+func (c *Conc) concreteType(at string) string {
+	if n, ok := c.typeNames[at]; ok {
+		return n
+	}
+	return at
+}
+
+// Names returns the concrete names (for reports).
+func (c *Conc) Names() map[string]string {
+	o := map[string]string{}
+	for _, p := range c.Pairs {
+		o[p] = c.typeName(p) + "." + c.fieldName(p)
+	}
+	return o
+}
 
 func sortedCopy(s []string) []string {
 	o := append([]string{}, s...)
